@@ -1349,6 +1349,12 @@ fn conc_case(case_seed: u64, r: &mut Report, forced_mode: Option<u64>) {
     // owners of the open workspaces: free-running in stress mode, one action per controller
     // "phase" in parked mode (so that they act while a committer sits at the hook)
     let go = AtomicBool::new(false);
+    // set by a committer right before it calls commit (its earlier add_operation calls are done)
+    let invoked: Vec<AtomicBool> = (0..n).map(|_| AtomicBool::new(false)).collect();
+    // stress mode: a second thread of the same owner keeps adding while the owner's commit call is
+    // in flight (queued behind another commit, or running)
+    let co_owner: Vec<bool> = (0..n).map(|_| mode == 0 && rng.chance(3, 5)).collect();
+    let mut ctrl_calls: Vec<(usize, OwnerCall)> = Vec::new();
     let all_done = AtomicBool::new(false);
     let phase = AtomicU64::new(0);
     let acks = AtomicU64::new(0);
@@ -1369,6 +1375,7 @@ fn conc_case(case_seed: u64, r: &mut Report, forced_mode: Option<u64>) {
             let chain_h = Arc::clone(chain);
             let npre = pre_adds[i];
             let had_delta = delta_set[i];
+            let invoked_i = &invoked[i];
             hs.push(sc.spawn(move || {
                 let at_hook = move |ht2: &AtomicU64| {
                     ht2.store(1, Ordering::SeqCst);
@@ -1412,6 +1419,7 @@ fn conc_case(case_seed: u64, r: &mut Report, forced_mode: Option<u64>) {
                     mine.push(owner_add(&ws, op, had_delta, tick));
                 }
                 let inv = tick.fetch_add(1, Ordering::SeqCst);
+                invoked_i.store(true, Ordering::SeqCst);
                 let res = chain.commit(&ws);
                 let rt = tick.fetch_add(1, Ordering::SeqCst);
                 sched::set_thread_handler(None);
@@ -1424,8 +1432,34 @@ fn conc_case(case_seed: u64, r: &mut Report, forced_mode: Option<u64>) {
                     Ok(h) => ConcOutcome { ok: Some(h), err: None, inv, res: rt, hook },
                     Err(e) => ConcOutcome { ok: None, err: Some(e.to_string()), inv, res: rt, hook },
                 };
-                (Some(o), mine)
+                (Some(o), i, mine)
             }));
+            if co_owner[i] {
+                let ws = wss[i].clone();
+                let invoked_i = &invoked[i];
+                let mut orng = Rng::new(case_seed ^ (i as u64 + 91).wrapping_mul(0xD1B5_4A32_D192_ED03));
+                let had_delta = delta_set[i];
+                hs.push(sc.spawn(move || {
+                    let mut mine: Vec<OwnerCall> = Vec::new();
+                    let t0 = Instant::now();
+                    while !invoked_i.load(Ordering::SeqCst) && t0.elapsed() < Duration::from_secs(60) {
+                        std::hint::spin_loop();
+                    }
+                    for k in 0..3 {
+                        if done.load(Ordering::SeqCst) {
+                            break;
+                        }
+                        let op = Transaction::Put { key: format!("u:w{}co{}", i, k), data: format!("w{}.co{}", i, k).into_bytes() };
+                        mine.push(owner_add(&ws, op, had_delta, tick));
+                        match orng.below(3) {
+                            0 => std::thread::yield_now(),
+                            1 => std::thread::sleep(Duration::from_micros(5 + orng.below(60) as u64)),
+                            _ => {}
+                        }
+                    }
+                    (None, i, mine)
+                }));
+            }
         }
         for bi in n..total {
             let chain = &chain;
@@ -1499,7 +1533,7 @@ fn conc_case(case_seed: u64, r: &mut Report, forced_mode: Option<u64>) {
                         acks.fetch_add(1, Ordering::SeqCst);
                     }
                 }
-                (None, mine)
+                (None, bi, mine)
             }));
         }
         go.store(true, Ordering::SeqCst);
@@ -1561,6 +1595,16 @@ fn conc_case(case_seed: u64, r: &mut Report, forced_mode: Option<u64>) {
                     let settled = wait_settled(i, Duration::from_millis(150));
                     schedule.push(format!("start{}{}", i, if done[i].load(Ordering::SeqCst) { "(finished)" } else if settled { "(parked)" } else { "(blocked)" }));
                     started.push(i);
+                    // a second thread of the same owner (played by the controller) adds to the
+                    // workspace whose commit call is now parked at the hook, queued behind a
+                    // parked commit ("blocked"), or already back
+                    if rng.chance(2, 3) {
+                        for k in 0..1 + rng.below(2) {
+                            let op = Transaction::Put { key: format!("u:w{}co{}", i, k), data: format!("w{}.co{}", i, k).into_bytes() };
+                            ctrl_calls.push((i, owner_add(&wss[i], op, delta_set[i], &tick)));
+                        }
+                        schedule.push(format!("co-owner-adds{}", i));
+                    }
                     // the committer sits at the hook (its merge set is fixed, nothing applied yet):
                     // the owners of the open workspaces act now
                     if nb > 0 {
@@ -1615,23 +1659,23 @@ fn conc_case(case_seed: u64, r: &mut Report, forced_mode: Option<u64>) {
         }
         all_done.store(true, Ordering::SeqCst);
         let mut outs = Vec::new();
-        let mut calls = Vec::new();
+        let mut calls: Vec<Vec<OwnerCall>> = (0..total).map(|_| Vec::new()).collect();
         for h in hs {
             match h.join() {
-                Ok((o, c)) => {
+                Ok((o, idx, c)) => {
                     if let Some(o) = o {
                         outs.push(o);
                     }
-                    calls.push(c);
+                    calls[idx].extend(c);
                 }
-                Err(_) => {
-                    outs.push(ConcOutcome { ok: None, err: Some("<commit panicked>".into()), inv: 0, res: 0, hook: None });
-                    calls.push(Vec::new());
-                }
+                Err(_) => outs.push(ConcOutcome { ok: None, err: Some("<commit panicked>".into()), inv: 0, res: 0, hook: None }),
             }
         }
         (outs, calls)
     });
+    for (idx, c) in ctrl_calls {
+        calls[idx].push(c);
+    }
     chain.register_validator(chain.identity());
     if harness_timeout || gates.iter().any(|g| g.timed_out()) {
         r.inconclusive("concurrent: a parked committer was not released in time (harness watchdog)");
@@ -1665,6 +1709,11 @@ fn conc_case(case_seed: u64, r: &mut Report, forced_mode: Option<u64>) {
         };
         for (idx, cs) in calls.iter().enumerate() {
             for c in cs {
+                if idx < n && c.kind == "add" && c.inv > outcomes[idx].inv && c.inv < outcomes[idx].res {
+                    // the add began while the same workspace's own commit call was in flight
+                    r.count("conc_add_during_own_commit_call", 1);
+                    r.count(if c.ok { "conc_add_during_own_commit_call_accepted" } else { "conc_add_during_own_commit_call_refused" }, 1);
+                }
                 let over: Vec<usize> = (0..n).filter(|&j| j != idx && c.inv < outcomes[j].res && outcomes[j].inv < c.res).collect();
                 if over.is_empty() {
                     continue;
@@ -2446,7 +2495,7 @@ fn main() {
             floors.extend([("seq_programs", 60), ("seq_commit_ok", 150), ("seq_verify_calls", 1500), ("seq_commit_failed_after_apply_with_later_blocks", 15)]);
         }
         if on("concurrent") {
-            floors.extend([("conc_cases", 100), ("conc_cases_with_overlapping_calls", 50), ("conc_hook_hits", 100), ("conc_parked_cases", 20), ("conc_cases_with_late_failure_and_success", 15), ("conc_owner_add_overlapping_commit", 300), ("conc_owner_add_on_merge_candidate_overlapping_commit", 50)]);
+            floors.extend([("conc_cases", 100), ("conc_cases_with_overlapping_calls", 50), ("conc_hook_hits", 100), ("conc_parked_cases", 20), ("conc_cases_with_late_failure_and_success", 15), ("conc_owner_add_overlapping_commit", 300), ("conc_owner_add_on_merge_candidate_overlapping_commit", 50), ("conc_add_during_own_commit_call_accepted", 100), ("conc_add_during_own_commit_call_refused", 100)]);
         }
         if on("replay") {
             floors.extend([("replay_cases", 40), ("replay_blocks_applied", 100), ("replay_apply_committed_calls", 40)]);
@@ -2460,7 +2509,7 @@ fn main() {
     }
     let meta = Meta {
         property: "C16",
-        rule: "seq: one evaluation = one random program (12-41 calls of begin/add_operation/set delta/commit/rollback/append_block over <=4 open workspaces, auto-merge on/off, block size limit; one commit in five runs while the proposer's key is absent from the validator registry, so it is refused by append AFTER its writes were applied, often with blocks of other workspaces committed since its begin; appended blocks may carry validator endorsements) judged after EVERY call (verify() passes, height = accepted blocks, user keys of the store = block-order application of committed transactions, failed commit / rollback leave the full store dump and height/tip identical) and at the end (stored blocks walked through get_block, history()); distinct by the hash of the call/outcome trace, non-trivial if workspaces overlapped and at least one block was committed. tamper: one evaluation = one (stored block, mutation) pair on a 4-7 block chain built by commit/append_block with three registered validators, at least two blocks carrying validator endorsements (add_signature); mutations include every single field of header, transactions and endorsement entries, and every signed element (endorsement entry, endorsement list, proposer signature, header, transactions) moved in from ANOTHER stored block; the altered record is written through the underlying store and verify() must fail; distinct by (scope, field class, variant, how the block was produced, tip/inner); every evaluated mutation changes the stored bytes and the decoded block. concurrent: one evaluation = 2-4 prepared workspaces committed from as many threads (keys disjoint/shared/mixed, deltas none/orthogonal/conflicting/mixed, auto-merge on/off, 0-2 prior blocks; the owner of a committing workspace still adds 0-2 operations right before its commit call, and 0-2 further workspaces stay open while their owners keep calling add_operation / set delta / rollback on them (free-running in stress mode, once per controller step while a committer sits at the hook in parked mode); a workspace consists of every operation whose add_operation returned Ok: if it ends up Committed (own commit or merged) all of them must be in exactly one block and in the store, an operation accepted on a workspace that was not Active before the call is a violation, and a workspace whose rollback returned Ok must be in no block; each committer with probability 1/4 fails late: the proposer key is removed from the registry when it reaches the hook and registered again when its call has returned), either started together with jitter at the hook or parked at chain_commit:after_preimage and released singly / in groups in a seeded order; judged at quiescence (verify(), every block after the prefix = whole committed workspaces, each committed workspace in exactly one block, height = successful non-empty commits, stored chain walk, store = block-order application, single-writer keys present, failed writers invisible); distinct by configuration + schedule + outcomes + invocation/response order, non-trivial if at least two commit calls overlapped in real time. reopen: one evaluation = a chain of 1-5 committed blocks whose store image is re-opened 1-3 times by a new TensorChain with the same identity (persisted height exact / 1-2 behind the stored blocks, as after a crash between writing a block and writing the height / 0 / ahead), walked, extended by 1-3 commits, then verify(), the stored-chain walk (each prev_hash = hash of predecessor, tip hash) and store = block-order application are judged. replay: one evaluation = one block sequence (2-6 blocks, optionally preceded by malformed variants) applied to two fresh replicas through TensorStateMachine::apply_block or a Raft follower + apply_committed; accept/reject decisions and compute_state_root after every entry must agree between replicas, well-formed blocks must be accepted, replica user keys = block-order application; non-trivial if >= 2 blocks were applied.",
+        rule: "seq: one evaluation = one random program (12-41 calls of begin/add_operation/set delta/commit/rollback/append_block over <=4 open workspaces, auto-merge on/off, block size limit; one commit in five runs while the proposer's key is absent from the validator registry, so it is refused by append AFTER its writes were applied, often with blocks of other workspaces committed since its begin; appended blocks may carry validator endorsements) judged after EVERY call (verify() passes, height = accepted blocks, user keys of the store = block-order application of committed transactions, failed commit / rollback leave the full store dump and height/tip identical) and at the end (stored blocks walked through get_block, history()); distinct by the hash of the call/outcome trace, non-trivial if workspaces overlapped and at least one block was committed. tamper: one evaluation = one (stored block, mutation) pair on a 4-7 block chain built by commit/append_block with three registered validators, at least two blocks carrying validator endorsements (add_signature); mutations include every single field of header, transactions and endorsement entries, and every signed element (endorsement entry, endorsement list, proposer signature, header, transactions) moved in from ANOTHER stored block; the altered record is written through the underlying store and verify() must fail; distinct by (scope, field class, variant, how the block was produced, tip/inner); every evaluated mutation changes the stored bytes and the decoded block. concurrent: one evaluation = 2-4 prepared workspaces committed from as many threads (keys disjoint/shared/mixed, deltas none/orthogonal/conflicting/mixed, auto-merge on/off, 0-2 prior blocks; the owner of a committing workspace still adds 0-2 operations right before its commit call, and 0-2 further workspaces stay open while their owners keep calling add_operation / set delta / rollback on them (free-running in stress mode, once per controller step while a committer sits at the hook in parked mode); a second thread of the same owner (stress mode) or the controller (parked mode, right after the commit call parked at the hook / queued behind a parked commit / returned) adds operations to a workspace while its OWN commit call is in flight; a workspace consists of every operation whose add_operation returned Ok: if it ends up Committed (own commit or merged) all of them must be in exactly one block and in the store, an operation accepted on a workspace that was not Active before the call is a violation, and a workspace whose rollback returned Ok must be in no block; each committer with probability 1/4 fails late: the proposer key is removed from the registry when it reaches the hook and registered again when its call has returned), either started together with jitter at the hook or parked at chain_commit:after_preimage and released singly / in groups in a seeded order; judged at quiescence (verify(), every block after the prefix = whole committed workspaces, each committed workspace in exactly one block, height = successful non-empty commits, stored chain walk, store = block-order application, single-writer keys present, failed writers invisible); distinct by configuration + schedule + outcomes + invocation/response order, non-trivial if at least two commit calls overlapped in real time. reopen: one evaluation = a chain of 1-5 committed blocks whose store image is re-opened 1-3 times by a new TensorChain with the same identity (persisted height exact / 1-2 behind the stored blocks, as after a crash between writing a block and writing the height / 0 / ahead), walked, extended by 1-3 commits, then verify(), the stored-chain walk (each prev_hash = hash of predecessor, tip hash) and store = block-order application are judged. replay: one evaluation = one block sequence (2-6 blocks, optionally preceded by malformed variants) applied to two fresh replicas through TensorStateMachine::apply_block or a Raft follower + apply_committed; accept/reject decisions and compute_state_root after every entry must agree between replicas, well-formed blocks must be accepted, replica user keys = block-order application; non-trivial if >= 2 blocks were applied.",
         assumptions: vec![
             "auto-merge uses an unbounded merge window (u64::MAX) or is disabled, so no verdict depends on the 100 ms wall-clock default".into(),
             "compare-and-swap transactions are generated with a non-empty expectation only (the behaviour for an absent key and an empty expectation is not specified)".into(),
